@@ -11,6 +11,11 @@
      - to the MODEL: every step of SLane.gstep is matched by observations the automaton accepts, between matching
        program points, and those observations read SLane's dq_state and leave SLane's new dq_state (each
        compare-exchange writes the value of the same generated body).
+   SCOPE: Model/SLane.v is a FLAT-CLIENT model: `begin` needs an Idle thread (SLane.v:93-103), so there is no call from
+   inside a callout; a work item that submits to its own serial queue (drainer = pusher) is outside SLane, SLaneT and
+   SLaneR and outside every "any interleaving" below.  The stress harness does exercise that client (about one round in
+   five); those rounds are judged on the library by the API oracle and the value chains only, never by the automaton or
+   the global replay.
    Direction: SLane's behaviours are included in the automaton's.  The need_override wakeup of a push onto a non-empty
    list (queue.c:5077-5088), which the automaton showed the library takes and the first version of SLane lacked, is now
    SLane.ostep + PA_oprobe / PA_owake; every recorded round replays as a run of SLane.begin / gstep / ostep. *)
@@ -97,11 +102,13 @@ Theorem C01_slanet_recorded_traces :
 Proof. exact demo_traces. Qed.
 Print Assumptions C01_slanet_recorded_traces.
 
-(* the global replay (Model/SLaneR.v, used by lib/props/c01_slane.py on every recorded round): the scheduler takes only
-   steps of SLane (begin / gstep / ostep) — whatever action lists, preferred order and window it is given, the state it
-   ends in is reachable in SLane (valid thread ids).  A round it consumes entirely is therefore a run of
-   SLane with the recorded outcomes (was_empty, probe results, lock restarts, every dq_state value written, pop results,
-   item identities), and SLane's theorems apply to the state it reports *)
+(* the global replay (Model/SLaneR.v, used by lib/props/c01_slane.py on every recorded flat round).  What is PROVED is only
+   this: the scheduler takes steps of SLane (begin / gstep / ostep), so whatever action lists, preferred order and window
+   it is given, the state it ends in is reachable in SLane (valid thread ids) — a statement that holds for ANY action list.
+   That a recorded round is reproduced (every action consumed, each enabled in the model with the recorded outcome:
+   was_empty, probe results, lock restarts, every dq_state value written, pop results, item identities; final model state =
+   recorded final state) is established by RUNNING the executable scheduler on that round, i.e. it is a test, repeated on
+   every run of the check, not a theorem *)
 Theorem C01_slanet_replay_reach : forall rb fuel w s qs ord done,
   qs_ok qs = true -> reach rb s -> reach rb (fst (fst (sched fuel w s qs ord done))).
 Proof. exact sched_reach. Qed.
